@@ -136,3 +136,65 @@ def campaign(ctx):
             ctx.sample("accepted-converted", case)
         ctx.fail_all(r.get("fails", []), case)
     ctx.run_given(case_strategy(ctx.thorough), body, max_examples=ctx.n(1500, 20000))
+    fuzz_tier(ctx, run_case)
+
+
+def fuzz_tier(ctx, run_case_fn, pid="C04"):
+    """coverage-guided fuzzing (atheris / libFuzzer) of the str / bytes -> T converters, oracle inside the target
+    (vf/fuzz/strconv.py); failures come back as ordinary cases and are re-judged here, so they are bucketed, shrunk and
+    replayable like the generated ones.  Quick: 4 000 runs in shard 0; thorough: 60 000 runs in each of the first 4 shards."""
+    import json
+    import os
+    import shutil
+    import subprocess
+    import sys
+    from ..core import ROOT, WORK, REPO
+    if ctx.shard >= (4 if ctx.thorough else 1):
+        return
+    try:
+        sys.path.append(os.path.join(ROOT, ".deps"))
+        import atheris  # noqa: F401
+    except Exception:
+        ctx.label("fuzz_tier_skipped_atheris_missing")
+        return
+    runs = 60000 if ctx.thorough else 4000
+    tag = f"{pid}-{ctx.tier}-{ctx.seed}-{ctx.shard}-{os.getpid()}"
+    out = os.path.join(WORK, f"fuzz-{tag}.jsonl")
+    corpus = os.path.join(WORK, f"corpus-{tag}")
+    os.makedirs(corpus, exist_ok=True)
+    # seed corpus: a few valid spellings (first byte selects the target, second the options, third the shape)
+    for n, (i, text) in enumerate([(0, "2020-01-02T03:04:05+08:00"), (1, "2020-01-02"), (2, "03:04:05.5"), (3, "P1DT2H3M4.5S"), (4, '{"a": 1}'), (5, "[1, 2]"),
+                                   (8, "1.50"), (9, "-12"), (10, "1e3"), (11, "true"), (12, "12345678-1234-5678-1234-567812345678"), (21, "1,2,3"), (22, "a=1&b=2")]):
+        with open(os.path.join(corpus, f"seed{n}"), "wb") as f:
+            f.write(bytes([i, 0, 0]) + text.encode())
+    env = dict(os.environ, VF_FUZZ_OUT=out, VERIF_REPO=REPO, PYTHONHASHSEED="0")
+    cmd = [sys.executable, "-B", os.path.join(ROOT, "vf", "fuzz", "strconv.py"), f"-runs={runs}", f"-seed={ctx.hseed + 1}", "-max_len=64", corpus]
+    try:
+        subprocess.run(cmd, env=env, cwd=ROOT, stdout=subprocess.DEVNULL, stderr=subprocess.DEVNULL, timeout=3600)
+    except subprocess.TimeoutExpired:
+        ctx.label("fuzz_tier_timeout")
+    stats = {}
+    if os.path.exists(out + ".stats"):
+        stats = json.load(open(out + ".stats"))
+    ctx.ev(stats.get("execs", 0))
+    ctx.label("fuzz_execs", stats.get("execs", 0))
+    ctx.label("fuzz_accepted", stats.get("accepted", 0))
+    ctx.label("fuzz_rejected", stats.get("rejected", 0))
+    ctx.extra["fuzz_corpus_files"] = len(os.listdir(corpus))
+    if os.path.exists(out):
+        for line in open(out):
+            rec = json.loads(line)
+            case = {"type": rec["type"], "value": rec["value"], "options": rec["options"], "entry": "schema"}
+            try:
+                r = run_case_fn(case)
+            except Exception:
+                continue
+            fails = r.get("fails") or []
+            if not fails and pid == "C01" and r.get("status") == "ok" and not r.get("conforms", True):
+                fails = [(f"nonconforming/{r['why']}", {"why": r["why"], "entry": "schema"})]
+            ctx.fail_all(fails, case)
+            ctx.label("fuzz_reported_failures")
+    for pth in (out, out + ".stats"):
+        if os.path.exists(pth):
+            os.unlink(pth)
+    shutil.rmtree(corpus, ignore_errors=True)
